@@ -1244,6 +1244,9 @@ impl Vm {
         }
         if self.active_fiber().has_finished() {
             if self.active_fiber().caller.is_some() {
+                // Nothing can look at the values of a finished fiber any more; whoever keeps the
+                // fiber does not keep them.
+                self.active_fiber_mut().stack.clear();
                 self.unload_fiber(None)?;
                 self.poke(0, result);
                 return Ok(None);
